@@ -117,27 +117,71 @@ def r2_fields(prog, rep: Report, record: Cls, csvr: Cls, jsonr: Cls):
                   scenario="columns are written in another order than they are read")
     load = prog.method(csvr, "load")
     rep.fn(load)
-    zips = [c for c in ast.walk(load.node) if isinstance(c, ast.Call) and src(c.func) == "zip"]
-    ok = False
-    for z in zips:
-        args = [src(x) for x in z.args]
-        if len(args) == 3 and args[0] == "cls.field_names()" and args[1] == "cls.field_types()":
-            comp = getattr(getattr(z, "_parent", None), "_parent", None)
-            if isinstance(comp, ast.DictComp) and isinstance(comp.generators[0].target, ast.Tuple):
-                k, t, v = (src(x) for x in comp.generators[0].target.elts)
-                ok = src(comp.key) == k and src(comp.value) == f"{t}({v})"
-    rep.check("C13.R2", load, "reader-fields", ok, "{name: type(value)} over zip(field_names, field_types, row)",
-              "the CSV reader does not build {name: type(value)} from zip(cls.field_names(), cls.field_types(), row)",
-              scenario="values are assigned to the wrong field or left as strings: load(save(r)) != r")
+    # the keyword arguments the record is built from, as a mapping position by position (sa/paths.elementwise):
+    #     field_names()[i]  ->  field_types()[i](row[i])
+    from ..paths import elementwise, strip_versions, subterms, summaries
+    ps, un = summaries(prog, prog.resolve(csvr, "load"), csvr)
+    normal = [p_ for p_ in ps if p_.exit == "return"]
+    verdicts = []
+    for p_ in normal:
+        built = [e for e in p_.events if e[0] == "call" and any(isinstance(a, tuple) and len(a) == 2 and a[0] is None for a in e[3])]
+        if len(built) != 1:
+            verdicts.append(("unrec", f"{len(built)} constructions from a keyword dictionary on one path"))
+            continue
+        d = [a[1] for a in built[0][3] if isinstance(a, tuple) and len(a) == 2 and a[0] is None][0]
+        pair = elementwise(strip_versions(d))
+        if not (isinstance(pair, tuple) and pair[0] == "tuple" and len(pair) == 3):
+            verdicts.append(("unrec", "the keyword dictionary is not built position by position from sequences"))
+            continue
+        k, v = pair[1], pair[2]
+        names_ok = k[0] == "at" and k[1][0] == "mcall" and k[1][1] == "field_names" and k[1][2] == ("self",)
+        v_ok = v[0] == "apply" and v[1][0] == "at" and v[1][1][0] == "mcall" and v[1][1][1] == "field_types" and v[1][1][2] == ("self",) \
+            and len(v[2]) == 1 and v[2][0][0] == "at" and any(t[0] == "eff" and t[1] == "reader" for t in subterms(v[2][0][1]))
+        verdicts.append(("ok", "") if names_ok and v_ok else
+                        ("viol", "the CSV reader does not build {name: type(value)} from field_names(), field_types() and the parsed row "
+                                 "position by position"))
+    if un or not normal:
+        rep.unrec("C13.R2", load, "reader-fields", "; ".join(un) or "no normal path through load()")
+    elif any(k_ == "viol" for k_, _ in verdicts):
+        rep.viol("C13.R2", load, "reader-fields", [m for k_, m in verdicts if k_ == "viol"][0],
+                 scenario="values are assigned to the wrong field or left as strings: load(save(r)) != r")
+    elif any(k_ == "unrec" for k_, _ in verdicts):
+        rep.unrec("C13.R2", load, "reader-fields", [m for k_, m in verdicts if k_ == "unrec"][0])
+    else:
+        rep.ok("C13.R2", load, "reader-fields", "{name: type(value)} position by position over field_names, field_types and the parsed row")
     jl = prog.method(jsonr, "load")
     rep.fn(jl)
-    ok = any(isinstance(n, ast.DictComp) and len(n.generators) == 1 and len(n.generators[0].ifs) == 1
-             and "cls.field_names()" in src(n.generators[0].ifs[0]) and isinstance(n.generators[0].ifs[0], ast.Compare)
-             and isinstance(n.generators[0].ifs[0].ops[0], ast.In) and src(n.key) == src(n.generators[0].target.elts[0])
-             and src(n.value) == src(n.generators[0].target.elts[1]) for n in ast.walk(jl.node))
-    rep.check("C13.R2", jl, "json-fields", ok, "keeps exactly the keys in cls.field_names(), values unmodified",
-              "JsonRecord.load does not keep exactly the (key, value) pairs whose key is in cls.field_names()",
-              scenario="a field is dropped or renamed on load")
+    ps, un = summaries(prog, prog.resolve(jsonr, "load"), jsonr)
+    normal = [p_ for p_ in ps if p_.exit == "return"]
+    verdicts = []
+    for p_ in normal:
+        built = [e for e in p_.events if e[0] == "call" and any(isinstance(a, tuple) and len(a) == 2 and a[0] is None for a in e[3])]
+        if len(built) != 1:
+            verdicts.append(("unrec", f"{len(built)} constructions from a keyword dictionary on one path"))
+            continue
+        d = strip_versions([a[1] for a in built[0][3] if isinstance(a, tuple) and len(a) == 2 and a[0] is None][0])
+        if not (isinstance(d, tuple) and d[0] == "comp" and d[1] == "dict"):
+            verdicts.append(("unrec", "the keyword dictionary is not a dictionary comprehension"))
+            continue
+        (k, v), it_, conds, lid = d[2], d[3], d[4], d[5]
+        pairs_ok = k[0] == "key" and v[0] == "val" and k[1] == v[1] and k[2] == v[2] == lid
+        src_ok = any(t[0] == "eff" and t[1] == "loads" for t in subterms(k[1])) if pairs_ok else False
+
+        def names_table(t):
+            while isinstance(t, tuple) and t[0] == "call" and t[1] in ("frozenset", "set", "tuple", "list") and len(t[2]) == 1:
+                t = t[2][0]
+            return isinstance(t, tuple) and t[0] == "mcall" and t[1] == "field_names" and t[2] == ("self",)
+        cond_ok = len(conds) == 1 and conds[0][0] == "cmp" and conds[0][1] == "In" and conds[0][2] == k and names_table(conds[0][3])
+        verdicts.append(("ok", "") if pairs_ok and src_ok and cond_ok else
+                        ("viol", "JsonRecord.load does not keep exactly the (key, value) pairs whose key is in cls.field_names()"))
+    if un or not normal:
+        rep.unrec("C13.R2", jl, "json-fields", "; ".join(un) or "no normal path through load()")
+    elif any(k_ == "viol" for k_, _ in verdicts):
+        rep.viol("C13.R2", jl, "json-fields", [m for k_, m in verdicts if k_ == "viol"][0], scenario="a field is dropped or renamed on load")
+    elif any(k_ == "unrec" for k_, _ in verdicts):
+        rep.unrec("C13.R2", jl, "json-fields", [m for k_, m in verdicts if k_ == "unrec"][0])
+    else:
+        rep.ok("C13.R2", jl, "json-fields", "keeps exactly the keys in cls.field_names(), values unmodified")
 
 
 CLEAN, DIRTY, READ, CUT, SOUGHT = "CLEAN", "DIRTY", "READ", "CUT", "SOUGHT"
@@ -164,6 +208,13 @@ class _Buf(Client):
                 self.problems.append((node.lineno, f"writerow on a buffer in state {state}: the previous row is still in it"))
             return (DIRTY,)
         d = dotted(recv)
+        if isinstance(recv, ast.Name):
+            # a local that names the buffer (`buffer = cls._res_io`)
+            fl = getattr(ctx.func.node, "_flow", None)
+            if fl is None:
+                from ..flow import Flow
+                fl = ctx.func.node._flow = Flow(ctx.func.node)
+            d = dotted(fl.expand(recv)) or d
         if not (d and d[-1] == self.buf):
             return (state,)
         if name == "getvalue":
@@ -267,14 +318,42 @@ def r4_one_line(prog, rep: Report, csvr: Cls, jsonr: Cls):
     cs = prog.method(csvr, "save")
     rep.fn(cs)
     _w, wf, _r, _rf = _csv_calls(prog, csvr)
-    ok = all(isinstance(r.value, ast.Call) and (wf is not None and src(r.value.func).endswith("." + wf.name)) and [src(a) for a in r.value.args] == ["asdict(self)"]
-             for r in returns_of(cs.node)) and bool(returns_of(cs.node))
-    rep.check("C13.R4", cs, "csv-one-row", ok, "returns _dict_to_string(asdict(self))", "CSVRecord.save does not return the single written row",
-              scenario="save() returns something the loader cannot parse back")
+    # what save() returns, read off its path summaries (helpers followed): the text that getvalue() read after exactly one
+    # writerow(asdict(self))
+    from ..paths import summaries
+    ps, un = summaries(prog, prog.resolve(csvr, "save"), csvr)
+    normal = [p_ for p_ in ps if p_.exit == "return"]
+    if un or not normal:
+        rep.unrec("C13.R4", cs, "csv-one-row", "; ".join(un) or "no normal path through save()")
+    else:
+        bad, unknown = [], []
+        for p_ in normal:
+            rows = [e for e in p_.events if e[0] == "call" and e[1] == "writerow"]
+            if len(rows) != 1:
+                bad.append(f"{len(rows)} rows are written on one path")
+                continue
+            arg = rows[0][3][0] if rows[0][3] else None
+            whole = isinstance(arg, tuple) and arg[0] in ("eff", "call") and arg[1].split(".")[-1] == "asdict" and \
+                (arg[3] if arg[0] == "eff" else arg[2])[:1] == (("self",),)
+            if not whole:
+                (unknown if isinstance(arg, tuple) and arg[0] in ("opq", "lv", "free") else bad).append(
+                    "the row written is not asdict(self)")
+            v = p_.value
+            if not (isinstance(v, tuple) and v[0] in ("eff", "mcall") and v[1] == "getvalue"):
+                (unknown if isinstance(v, tuple) and v[0] in ("opq", "lv", "free") else bad).append(
+                    "the returned value is not what getvalue() read from the buffer")
+        if bad:
+            rep.viol("C13.R4", cs, "csv-one-row", "CSVRecord.save does not return the single written row: " + sorted(set(bad))[0],
+                     scenario="save() returns something the loader cannot parse back")
+        elif unknown:
+            rep.unrec("C13.R4", cs, "csv-one-row", sorted(set(unknown))[0])
+        else:
+            rep.ok("C13.R4", cs, "csv-one-row", "returns what getvalue() read after one writerow(asdict(self))")
     load = prog.method(csvr, "load")
     s = load.params[1]
     rd = [c for c in calls_in(load.node) if ext_name(prog, load, c) == "csv.reader"]
-    ok = len(rd) == 1 and src(rd[0].args[0]) == f"[{s}]"
+    a0 = rd[0].args[0] if len(rd) == 1 and rd[0].args else None
+    ok = isinstance(a0, (ast.List, ast.Tuple)) and len(a0.elts) == 1 and src(a0.elts[0]) == s       # [s] or (s,): one line
     rep.check("C13.R4", load, "csv-load-one-line", ok, f"csv.reader([{s}]) parses exactly the given line",
               "the CSV loader does not parse exactly the one given line", scenario="load() reads a different text than save() produced")
     # on every path the row comes from the csv reader: a hand-written split of the line is not the inverse of the csv writer
@@ -302,9 +381,17 @@ def r4_one_line(prog, rep: Report, csvr: Cls, jsonr: Cls):
     jl = prog.method(jsonr, "load")
     rep.fn(jl)
     lo = [c for c in calls_in(jl.node) if ext_name(prog, jl, c) == "json.loads"]
-    rep.check("C13.R4", jl, "json-load", len(lo) == 1 and [src(a) for a in lo[0].args] == [jl.params[1]],
-              "json.loads of the given line", "JsonRecord.load does not parse the given string with json.loads",
-              scenario="load(save(r)) fails or differs")
+    hooks = [k.arg for c_ in lo for k in c_.keywords if k.arg in ("object_hook", "object_pairs_hook", "parse_float", "parse_int",
+                                                                    "parse_constant", "cls") or k.arg is None]
+    if hooks and len(lo) == 1 and [src(a) for a in lo[0].args] == [jl.params[1]]:
+        rep.viol("C13.R4", jl, "json-load", f"json.loads is called with {hooks}: the values are rewritten while they are parsed (a hook "
+                 "runs on every nested object, number parsers change value types), which json.dumps in save() does not undo",
+                 scenario="a record with a dict-valued field: the nested dictionary loses the keys that are not field names; "
+                          "load(save(r)) != r")
+    else:
+        rep.check("C13.R4", jl, "json-load", len(lo) == 1 and [src(a) for a in lo[0].args] == [jl.params[1]],
+                  "json.loads of the given line", "JsonRecord.load does not parse the given string with json.loads",
+                  scenario="load(save(r)) fails or differs")
 
 
 def r5_record_layer(prog, rep: Report):
